@@ -15,17 +15,28 @@ class V(dict):
         super().__init__(rule=rule, msg=msg, feat=feat)
 
 
+NOINIT = object()
+
+
 class Conn:
     def __init__(self, c, groups):
         self.c = c
         self.src, self.dst = c["src"], c["dst"]
-        self.seid, self.deid = f"e{c['se']}", f"e{c['de']}"
-        self.sattr, self.dattr = c["sa"], c["da"]
         self.delay = reftime.conn_delay(groups, c)
         self.adapt = reftime.delay(groups[c["src"]], groups[c["dst"]])
-        self.trigger = c["da"] == "ti"
-        self.persistent = c["sa"] == "po"
-        self.init = harness.init_token(c) if c.get("init") else None
+        if "explicit" in c:
+            # calibration against foreign simulators: everything is given explicitly
+            x = c["explicit"]
+            self.seid, self.deid, self.sattr, self.dattr = x["seid"], x["deid"], x["sattr"], x["dattr"]
+            self.trigger, self.persistent = x["trigger"], x["persistent"]
+            self.init = x.get("init", None) if x.get("has_init") else None
+            self.init_is_none_value = bool(x.get("has_init")) and x.get("init", None) is None
+        else:
+            self.seid, self.deid = f"e{c['se']}", f"e{c['de']}"
+            self.sattr, self.dattr = c["sa"], c["da"]
+            self.trigger = c["da"] == "ti"
+            self.persistent = c["sa"] == "po"
+            self.init = harness.init_token(c) if c.get("init") else None
         self.key = f"{self.src}.{self.seid}"
         self.hist = []      # [due, seq, token, delivered, producing label]
         crossing = groups[c["src"]] != groups[c["dst"]]
@@ -40,7 +51,7 @@ class Monitor:
     def __init__(self, scn):
         self.scn = scn
         self.until = scn["until"]
-        self.groups = harness.sim_groups(scn)
+        self.groups = scn["groups"] if "groups" in scn else harness.sim_groups(scn)
         self.types = {s["sid"]: s["type"] for s in scn["sims"]}
         self.lazy = scn.get("run", {}).get("lazy_stepping", True)
         self.cache = scn.get("world", {}).get("cache", True)
@@ -308,7 +319,10 @@ class Monitor:
             return "C03.lost" if not c.persistent else "C03.none_instead_of_value"
         if g == c.init:
             return "C03.initial_data_instead_of_value" if want is not None else "C03.initial_data_unexpected"
-        prod = self.tokens.get(g)
+        try:
+            prod = self.tokens.get(g)
+        except TypeError:
+            return "C03.mismatch"
         if prod is None:
             if any(o.init == g for o in self.conns):
                 return "C03.foreign_initial_data"
@@ -355,7 +369,10 @@ class Monitor:
                 val = data[c.seid][c.sattr]
                 due = reftime.apply(c.delay, Tout)
                 c.hist.append([due, self.seq, val, False, L])
-                self.tokens.setdefault(val, []).append(c)
+                try:
+                    self.tokens.setdefault(val, []).append(c)
+                except TypeError:
+                    pass        # unhashable payload (calibration with foreign simulators)
                 q = c.dst
                 if q != s and self.begun[q] and due <= self.begun[q][-1]:
                     self.v("C01.late_output",
